@@ -224,6 +224,11 @@ def check_chord_fingering(ctx, case):
             if ctx.check(all(isinstance(s_, int) and isinstance(f_, int) and 0 <= s_ < len(op) and 0 <= f_ <= maxfret for s_, f_ in pos) and
                          len({s_ for s_, _ in pos}) == len(pos) and pos, "chord_fingering/best/positions", what):
                 snd = {(op[s_] + f_) % 12 for s_, f_ in pos}
+                named = [(x.name, getattr(x, "string", None), getattr(x, "fret", None)) for x in best]
+                ctx.check(all(T.valid(nm) and T.pc(nm) == (op[s_] + f_) % 12 for nm, s_, f_ in named), "chord_fingering/best/note-is-not-what-its-position-sounds",
+                          lambda: "%r: returned notes %r on open strings %r" % (case, named, op))
+                ctx.check({T.pc(nm) for nm, _, _ in named if T.valid(nm)} == pcs, "chord_fingering/best/named-pitch-classes",
+                          lambda: "%r: returned notes %r, chord %r" % (case, named, names))
                 ctx.check(snd <= pcs, "chord_fingering/best/foreign-pitch-class", what)
                 ctx.check(snd >= pcs, "chord_fingering/best/chord-note-missing", what)
                 non = [f_ for _, f_ in pos if f_]
@@ -435,6 +440,30 @@ def check_unplayable(ctx, case):
     plain = [t for t in _tunings() if not _has_courses(t)]
     t = plain[ti % len(plain)]
     op = _open(t)
+    if how.startswith("span"):
+        # two notes that can each be played, but not together: every assignment to two strings spans four frets or more.
+        # "span-wished": both notes carry their own valid (string, fret) position on different strings
+        pair = None
+        for f_low in (1, 2, 3):
+            for f_high in range(24, 6, -1):
+                ps = [op[0] + f_low, op[-1] + f_high]
+                if ps[0] < ps[1] <= 127 and not _brute(op, ps, 4):
+                    pair = (f_low, f_high, ps)
+                    break
+            if pair:
+                break
+        if pair is None:
+            return ctx.note_case(False, ["unplayable:skipped"])
+        f_low, f_high, ps = pair
+        notes = [t.get_Note(0, f_low), t.get_Note(len(op) - 1, f_high)] if how.endswith("wished") else [Note(ps[0]), Note(ps[1])]
+        b = Bar("C", (4, 4))
+        b.place_notes(NoteContainer([Note(op[0])]), 4)
+        b.place_notes(NoteContainer(notes), 4)
+        ctx.raises("tab/unplayable-entry", (FingerError, RangeError), TB.from_Bar, b, width, t)
+        tr = Track()
+        tr.add_bar(b)
+        ctx.raises("tab/unplayable-entry", (FingerError, RangeError), TB.from_Track, tr, width, t)
+        return ctx.note_case(True, ["unplayable:" + how])
     low, high = min(op) - 1, max(op) + 25
     p = low if how in ("low", "low-nc", "bar") else high
     if p < 0 or p > 127:
@@ -565,8 +594,8 @@ def sub_tabs(ctx, shard, n):
 
 
 def sub_unplayable(ctx, shard, n):
-    cases = [[ti, w, how] for ti in range(0, 48, 1 if not ctx.quick else 5) for w in (40, 80) for how in ("low", "high", "low-nc", "high-nc", "bar")]
-    ctx.exhaustive("unplayable notes / containers / bar entries", "non-course tunings x 2 widths x 5 forms", len(cases))
+    cases = [[ti, w, how] for ti in range(0, 48, 1 if not ctx.quick else 5) for w in (40, 80) for how in ("low", "high", "low-nc", "high-nc", "bar", "span", "span-wished")]
+    ctx.exhaustive("unplayable notes / containers / bar entries", "non-course tunings x 2 widths x 7 forms", len(cases))
     ctx.enumerate("unplayable", check_unplayable, cases)
 
 
